@@ -154,6 +154,11 @@ pub struct LinearCase {
     /// the mock is a partial mock (three of the methods have real implementations registered)
     #[serde(default)]
     pub partial: bool,
+    /// after all items: catch-all patterns (`each_call(<accepts everything>)`) answering with a fresh value on
+    /// `take` and `dup` (when those methods are used unordered): every request is matched by its item's own,
+    /// earlier pattern, so a used-up single-use value must still be refused, never replaced by the catch-all's
+    #[serde(default)]
+    pub later_catch_all: bool,
 }
 
 struct Configured {
@@ -357,6 +362,19 @@ fn check_inner(case: &LinearCase, insts: &mut Vec<Unimock>) -> Result<CaseInfo, 
     for (i, item) in case.items.iter().enumerate() {
         configured.push(configure(&mut dc, &reg, i as u8, item));
     }
+    if case.later_catch_all {
+        let unordered_on = |pred: &dyn Fn(Shape) -> bool| case.items.iter().any(|i| pred(i.shape)) && !case.items.iter().any(|i| pred(i.shape) && i.ordered);
+        if unordered_on(&|s| s == Shape::Take) {
+            let r = reg.clone();
+            let answer: Arc<dyn Fn(&Unimock, u8) -> Token + Send + Sync> = Arc::new(move |_, _| Token::new(&r));
+            dc.push(TokMock::take.each_call(&|m| m.func(|_, _| true)).answers_arc(answer));
+        }
+        if unordered_on(&|s| matches!(s, Shape::DupSingle | Shape::DupNTimes(_) | Shape::DupEach)) {
+            let r = reg.clone();
+            let answer: Arc<dyn Fn(&Unimock, u8) -> CToken + Send + Sync> = Arc::new(move |_, _| CToken::new(&r));
+            dc.push(TokMock::dup.each_call(&|m| m.func(|_, _| true)).answers_arc(answer));
+        }
+    }
     let partial = case.partial;
     let original = catch(move || if partial { Unimock::new_partial(dc) } else { Unimock::new(dc) }).map_err(|e| format!("construction panicked: {e}"))?;
     insts.push(original);
@@ -511,7 +529,8 @@ fn check_inner(case: &LinearCase, insts: &mut Vec<Unimock>) -> Result<CaseInfo, 
         .class_if(case.items.iter().any(|i| i.requests == 0), "never-requested-value")
         .class_if(case.items.iter().any(|i| i.ordered), "next_call-entry")
         .class_if(case.clones > 0, "requests-through-clones")
-        .class_if(case.partial, "partial-mock(real-implementations-registered)"))
+        .class_if(case.partial, "partial-mock(real-implementations-registered)")
+        .class_if(case.later_catch_all, "later-catch-all-pattern-on-take/dup"))
 }
 
 fn shape_strategy() -> impl Strategy<Value = Shape> {
@@ -544,7 +563,7 @@ fn item_strategy() -> impl Strategy<Value = Item> {
 }
 
 pub fn case_strategy() -> impl Strategy<Value = LinearCase> {
-    (vec(item_strategy(), 1..=6), vec(any::<u8>(), 24), 0..=2u8, proptest::bool::weighted(0.35)).prop_map(|(mut items, order, clones, partial)| {
+    (vec(item_strategy(), 1..=6), vec(any::<u8>(), 24), 0..=2u8, proptest::bool::weighted(0.35), proptest::bool::weighted(0.35)).prop_map(|(mut items, order, clones, partial, later_catch_all)| {
         // one mode per method: the first item of a method decides whether it is ordered
         let method = |s: Shape| match s {
             Shape::Take => 0,
@@ -578,7 +597,7 @@ pub fn case_strategy() -> impl Strategy<Value = LinearCase> {
                 }
             }
         }
-        LinearCase { items, order, clones, partial }
+        LinearCase { items, order, clones, partial, later_catch_all }
     })
 }
 
@@ -806,7 +825,17 @@ pub fn grid() -> Vec<LinearCase> {
                                 order: vec![],
                                 clones: requests % 2,
                                 partial,
+                                later_catch_all: false,
                             });
+                            if !ordered && matches!(shape, Shape::Take | Shape::DupSingle | Shape::DupNTimes(_) | Shape::DupEach) {
+                                v.push(LinearCase {
+                                    items: vec![Item { shape, ordered, once, requests, drop_delivered_early: early }],
+                                    order: vec![],
+                                    clones: requests % 2,
+                                    partial,
+                                    later_catch_all: true,
+                                });
+                            }
                         }
                     }
                 }
@@ -816,7 +845,7 @@ pub fn grid() -> Vec<LinearCase> {
     v
 }
 
-pub const RULE: &str = "histories = 1-6 configured return values (non-Clone drop-counting tokens alone, inside Option / Poll, as owned leaves of mixed tuples (Token,&T) / (&T,Token,Token) and as the owned Err of Result<&T,Token>, and two or three levels down in Option<Result<&T,Token>>, Poll<Result<..>>, Poll<Option<Result<..>>>, Vec<Result<&T,Token>>, (Option<Result<&T,Token>>,&T); Clone tokens through the single-use path, n_times(n), each_call, and as leaf of a mixed tuple), some_call or next_call entry, unquantified or once(), each requested 0-4 times in a generated interleaving through the original and clones, on strict and partial mocks (three of the methods have real implementations: a matched request for a used-up value must still be refused), delivered values dropped early or kept past teardown; grid = every shape x entry x quantifier x 0..3 requests enumerated; racing = all schedules of 2-3 threads requesting one single-use value (see C10 engine). Non-trivial = some value requested more than once or an owned leaf inside a mixed composite; distinct = distinct case";
+pub const RULE: &str = "histories = 1-6 configured return values (non-Clone drop-counting tokens alone, inside Option / Poll, as owned leaves of mixed tuples (Token,&T) / (&T,Token,Token) and as the owned Err of Result<&T,Token>, and two or three levels down in Option<Result<&T,Token>>, Poll<Result<..>>, Poll<Option<Result<..>>>, Vec<Result<&T,Token>>, (Option<Result<&T,Token>>,&T); Clone tokens through the single-use path, n_times(n), each_call, and as leaf of a mixed tuple), some_call or next_call entry, unquantified or once(), each requested 0-4 times in a generated interleaving through the original and clones, on strict and partial mocks (three of the methods have real implementations: a matched request for a used-up value must still be refused), optionally with later catch-all patterns on the same methods (which must never answer instead), delivered values dropped early or kept past teardown; grid = every shape x entry x quantifier x 0..3 requests enumerated; racing = all schedules of 2-3 threads requesting one single-use value (see C10 engine). Non-trivial = some value requested more than once or an owned leaf inside a mixed composite; distinct = distinct case";
 
 pub fn run(ctx: &Ctx) -> Verdict {
     let mut v = Verdict::new("exploration", RULE);
